@@ -512,7 +512,9 @@ class Ledger:
         if s['cls'] != 'panic' or s['span'].get('mac') not in ('assert', 'assert_eq', 'debug_assert', 'debug_assert_eq'):
             return None
         role = fn_role(s['body'])
-        dep = {'new_with_unchecked_assertions': 'C04.1', 'elide_set_with_action': 'C02.4', 'encrypt_subject_opt': 'C02.2/C02.3'}.get(role)
+        dep = {'elide_set_with_action': 'C02.4', 'encrypt_subject_opt': 'C02.2/C02.3'}.get(role)
+        if dep is None and any(b2.hash == s['body'].hash and rv['variant'] == 'Node' for b2, bi2, si2, rv in agg_sites(self.F, CASE)):
+            dep = 'C04.1'      # the node constructor's own non-emptiness assertion
         if dep is None:
             return None
         if self.obligations_hold(dep):
